@@ -49,6 +49,91 @@ Proof.
   destruct (String.eqb d ""); reflexivity.
 Qed.
 
+(* ---------------- what MarshalYAML hands to the emitter is encodable (fix 9b9d633) ----------------
+   [block_guard_ok]: the guard read from today's source covers every string of [block_unsafe_value] (the four prefixes
+   yaml.v3 mangles, with the line feed as the byte looked for).  Decidable; discharged by computation in
+   Properties/C12.v (C12_src_block_guard_ok) and false when srcfacts finds no guard. *)
+Definition unsafe_prefixes : list string :=
+  [String (ascii_of_N 10) EmptyString; String (ascii_of_N 9) EmptyString; hx "e280a8"; hx "e280a9"].
+
+Definition block_guard_ok : bool :=
+  forallb (fun p => mem_str p block_prefixes) unsafe_prefixes
+  && String.eqb block_contains (String (ascii_of_N 10) EmptyString).
+
+Lemma mem_str_existsb (f : string -> bool) x l : mem_str x l = true -> f x = true -> existsb f l = true.
+Proof.
+  unfold mem_str. intros H Hf. apply existsb_exists in H. destruct H as (y & Hy & E).
+  apply eqb_true_s in E. subst y. apply existsb_exists. eauto.
+Qed.
+
+Lemma guard_covers st v :
+  block_guard_ok = true -> (N.land st (st_single + st_double) =? 0) = true -> block_unsafe_value v = true ->
+  block_guard st v = true.
+Proof.
+  unfold block_guard_ok, block_unsafe_value, block_guard. intros Hok Hst Hv.
+  apply Bool.andb_true_iff in Hok. destruct Hok as [Hp Hc]. apply eqb_true_s in Hc.
+  apply Bool.andb_true_iff in Hv. destruct Hv as [Hlf Hpre].
+  rewrite Hst, Hc, Hlf. cbn [andb].
+  cbn [unsafe_prefixes forallb] in Hp.
+  apply Bool.andb_true_iff in Hp. destruct Hp as [P1 Hp].
+  apply Bool.andb_true_iff in Hp. destruct Hp as [P2 Hp].
+  apply Bool.andb_true_iff in Hp. destruct Hp as [P3 Hp].
+  apply Bool.andb_true_iff in Hp. destruct Hp as [P4 _].
+  apply Bool.orb_true_iff in Hpre. destruct Hpre as [Hpre|H4]; [|exact (mem_str_existsb _ _ _ P4 H4)].
+  apply Bool.orb_true_iff in Hpre. destruct Hpre as [Hpre|H3]; [|exact (mem_str_existsb _ _ _ P3 H3)].
+  apply Bool.orb_true_iff in Hpre. destruct Hpre as [H1|H2];
+    [exact (mem_str_existsb _ _ _ P1 H1)|exact (mem_str_existsb _ _ _ P2 H2)].
+Qed.
+
+Lemma force_double_quoted st : (N.land (force_double st) (st_single + st_double) =? 0) = false.
+Proof.
+  unfold force_double. apply N.eqb_neq. intros H.
+  rewrite N.land_lor_distr_l in H. apply N.lor_eq_0_iff in H. destruct H as [_ H]. vm_compute in H. discriminate.
+Qed.
+
+Section Encodable.
+  Variable null_words quote_words : list string.
+  Variable pf : string -> bool.
+  Hypothesis Hguard : block_guard_ok = true.
+  Notation marshal := (marshal null_words quote_words pf).
+  Notation marshal_str := (marshal_str quote_words pf).
+
+  (* a marshalled string is never one of the scalars the emitter mangles: it is quoted, or the guard did not fire on
+     an unquoted style, and then the text is not block-unsafe *)
+  Lemma marshal_str_safe fl s v : block_unsafe_scalar fl (marshal_str s v) = false.
+  Proof.
+    unfold block_unsafe_scalar. rewrite (marshal_str_style quote_words pf), (marshal_str_value quote_words pf).
+    unfold str_style. set (st1 := if needs_quote quote_words pf v then st_single else y_style (base_meta s)).
+    destruct (block_guard st1 v) eqn:G.
+    - rewrite force_double_quoted. now rewrite Bool.andb_false_r.
+    - destruct (N.land st1 (st_single + st_double) =? 0) eqn:Q; [|now rewrite Bool.andb_false_r].
+      destruct (block_unsafe_value v) eqn:U; [|now rewrite !Bool.andb_false_r].
+      rewrite (guard_covers _ _ Hguard Q U) in G. discriminate.
+  Qed.
+
+  Lemma lit_scalar_safe fl m : is_lit_tag (y_tag m) = true -> block_unsafe_scalar fl m = false.
+  Proof. unfold block_unsafe_scalar. intros ->. cbn [negb]. now rewrite Bool.andb_false_r. Qed.
+
+  Theorem marshal_encodable n : std_s n = true -> forall fl, codec_unsafe_in fl (marshal n) = false.
+  Proof.
+    induction n as [s|s|s|s v|s items IH|s es IH] using snode_ind'; intros Hs fl; cbn [std_s] in Hs.
+    - cbn [YamlTree.marshal codec_unsafe_in]. apply lit_scalar_safe. now rewrite (marshal_null_tag null_words _ Hs).
+    - cbn [YamlTree.marshal codec_unsafe_in]. apply lit_scalar_safe. apply eqb_true_s in Hs. unfold marshal_bool.
+      rewrite (norm_tag_same tag_bool (base_meta s) Hs). unfold syn_tag in Hs. now rewrite Hs.
+    - cbn [YamlTree.marshal codec_unsafe_in]. apply lit_scalar_safe. unfold marshal_num, syn_tag in *.
+      apply Bool.orb_true_iff in Hs. destruct Hs as [Hs|Hs]; apply eqb_true_s in Hs; now rewrite Hs.
+    - cbn [YamlTree.marshal codec_unsafe_in]. apply marshal_str_safe.
+    - cbn [YamlTree.marshal codec_unsafe_in]. set (fl' := fl || is_flow (base_meta s)). clearbody fl'.
+      induction items as [|x r IHr]; [reflexivity|].
+      inversion_clear IH as [|? ? Hx Hr]. cbn [forallb] in Hs. apply Bool.andb_true_iff in Hs. destruct Hs as [Sx Sr].
+      cbn [map existsb]. now rewrite (Hx Sx fl'), (IHr Hr Sr).
+    - cbn [YamlTree.marshal codec_unsafe_in]. set (fl' := fl || is_flow (base_meta s)). clearbody fl'.
+      induction es as [|[k v] r IHr]; [reflexivity|].
+      inversion_clear IH as [|? ? Hx Hr]. cbn [forallb snd] in Hs, Hx. apply Bool.andb_true_iff in Hs. destruct Hs as [Sx Sr].
+      cbn [map existsb codec_unsafe_in]. now rewrite marshal_str_safe, (Hx Sx fl'), (IHr Hr Sr).
+  Qed.
+End Encodable.
+
 Section Codec.
   Variable fn_secret key_ciphertext : string.
   Notation ysecret := (ysecret fn_secret key_ciphertext).
@@ -124,15 +209,23 @@ Section Codec.
     unfold content in H. now rewrite H.
   Qed.
 
-  (* ---------------- the codec as a collaborator ---------------- *)
+  (* ---------------- the codec as a collaborator ----------------
+     yaml.v3's emitter [yenc] and parser [ydec] are section variables.  They are assumed to round trip (up to
+     [content]) ONLY the trees the rewrite itself produces from a parsed document of the accepted subset, and only
+     when such a tree is encodable - which [rewrite_encodable] (a theorem for encrypt_doc / decrypt_doc since fix
+     9b9d633, see encrypt_doc_encodable below) says it always is.  Nothing is assumed about other trees: for a
+     synthetic tree such as an untagged plain scalar "123" a real codec does NOT give back the content (it prints 123
+     and reads an integer), which is why the hypothesis is not stated over all trees. *)
   Variable yenc : ynode -> option string.       (* yaml.v3 Encoder on a node tree *)
   Variable ydec : string -> option ynode.       (* yaml.v3 parser: the root content node of the one document *)
   Definition encodable (n : ynode) : bool := negb (codec_unsafe n).
-  Hypothesis codec_round_trip :
-    forall n s, encodable n = true -> yenc n = Some s -> exists n', ydec s = Some n' /\ content n' = content n.
 
   Variable rewrite : ynode -> result ynode.      (* encrypt_doc or decrypt_doc *)
+  Hypothesis codec_round_trip :
+    forall src y n s, ydec src = Some y -> std_tree y = true -> rewrite y = ROk n -> encodable n = true ->
+                      yenc n = Some s -> exists n', ydec s = Some n' /\ content n' = content n.
   Hypothesis rewrite_skeleton : forall y y', std_tree y = true -> rewrite y = ROk y' -> skeleton y' = skeleton y.
+  Hypothesis rewrite_encodable : forall y y', rewrite y = ROk y' -> encodable y' = true.
 
   (* rewriteYAML on texts *)
   Definition rewrite_text (src : string) : option string :=
@@ -143,12 +236,104 @@ Section Codec.
 
   Theorem rewrite_text_skeleton src out y :
     ydec src = Some y -> std_tree y = true -> rewrite_text src = Some out ->
-    (forall y', rewrite y = ROk y' -> encodable y' = true) ->
     exists y2, ydec out = Some y2 /\ skeleton y2 = skeleton y.
   Proof.
-    unfold rewrite_text. intros Hd Hs H He. rewrite Hd in H.
+    unfold rewrite_text. intros Hd Hs H. rewrite Hd in H.
     destruct (rewrite y) as [y'|] eqn:Er; [|discriminate].
-    destruct (codec_round_trip y' out (He _ eq_refl) H) as (y2 & Hy2 & Hc).
+    destruct (codec_round_trip src y y' out Hd Hs Er (rewrite_encodable _ _ Er) H) as (y2 & Hy2 & Hc).
     exists y2. split; [exact Hy2|]. rewrite (skeleton_of_content _ _ Hc). now apply rewrite_skeleton.
   Qed.
 End Codec.
+
+(* ---------------- every tree EncryptSecrets / DecryptSecrets hand to the emitter is encodable ---------------- *)
+Section DocEncodable.
+  Variable P : env_params.
+  Variable fn_secret key_ciphertext new_key : string.
+  Variable enc dec : string -> option string.
+  Variable null_words quote_words : list string.
+  Variable pf : string -> bool.
+  Hypothesis Hne : String.eqb fn_secret key_ciphertext = false.
+  Hypothesis Hnew : new_key = key_ciphertext.
+  Hypothesis Hguard : block_guard_ok = true.
+
+  Theorem encrypt_doc_encodable y y' :
+    encrypt_doc P fn_secret key_ciphertext new_key enc null_words quote_words pf y = ROk y' -> codec_unsafe y' = false.
+  Proof.
+    unfold Crypt.encrypt_doc, rewrite_doc. intros H.
+    destruct (unmarshal y) as [s|] eqn:Eu; [|discriminate].
+    change (walk (encrypt_visit P fn_secret key_ciphertext new_key enc) s)
+      with (encrypt_tree P fn_secret key_ciphertext new_key enc s) in H.
+    rewrite (encrypt_tree_top_down _ _ _ _ _ Hne) in H.
+    destruct (enc_tree P fn_secret key_ciphertext new_key enc s) as [s'|] eqn:Ee; [|discriminate]. injection H as <-.
+    destruct (enc_tree_skeleton P _ _ _ enc null_words quote_words pf Hne Hnew _ _ (std_unmarshal _ _ Eu) Ee) as [Hs' _].
+    exact (marshal_encodable null_words quote_words pf Hguard s' Hs' false).
+  Qed.
+
+  Theorem decrypt_doc_encodable y y' :
+    decrypt_doc P fn_secret key_ciphertext dec null_words quote_words pf y = ROk y' -> codec_unsafe y' = false.
+  Proof.
+    unfold Crypt.decrypt_doc, rewrite_doc. intros H.
+    destruct (unmarshal y) as [s|] eqn:Eu; [|discriminate].
+    change (walk (decrypt_visit P fn_secret key_ciphertext dec) s)
+      with (decrypt_tree P fn_secret key_ciphertext dec s) in H.
+    rewrite (decrypt_tree_top_down _ _ _ _ Hne) in H.
+    destruct (dec_tree P fn_secret key_ciphertext dec s) as [s'|] eqn:Ee; [|discriminate]. injection H as <-.
+    destruct (dec_tree_skeleton P _ _ dec null_words quote_words pf Hne _ _ (std_unmarshal _ _ Eu) Ee) as [Hs' _].
+    exact (marshal_encodable null_words quote_words pf Hguard s' Hs' false).
+  Qed.
+End DocEncodable.
+
+(* ---------------- toy codecs: a finite book of (text, tree) pairs ----------------
+   [book_dec] looks a text up; [book_enc] answers with the first text of the book whose tree has the content of the
+   tree to write (and which [book_dec] maps back to that very tree).  Every book is a codec in the sense of
+   [codec_round_trip] - on ALL trees, not only on the image of a rewrite - so the hypothesis of the text-level theorems
+   is satisfiable, and Properties/C12.v instantiates it on a book that holds a document and its encrypted form. *)
+Lemma meta_eqb_sound a b : meta_eqb a b = true -> a = b.
+Proof.
+  destruct a as [t1 s1 v1 h1 l1 f1], b as [t2 s2 v2 h2 l2 f2]. unfold meta_eqb. cbn. intros H.
+  apply Bool.andb_true_iff in H. destruct H as [H Hf].
+  apply Bool.andb_true_iff in H. destruct H as [H Hl].
+  apply Bool.andb_true_iff in H. destruct H as [H Hh].
+  apply Bool.andb_true_iff in H. destruct H as [H Hv].
+  apply Bool.andb_true_iff in H. destruct H as [Ht Hs].
+  apply String.eqb_eq in Ht, Hv, Hh, Hl, Hf. apply N.eqb_eq in Hs. now subst.
+Qed.
+
+Lemma ynode_eqb_sound a : forall b, ynode_eqb a b = true -> a = b.
+Proof.
+  induction a as [m|m items IH|m es IH|k m] using ynode_ind'; intros [m'|m' items'|m' es'|k' m'] H;
+    cbn [ynode_eqb] in H; try discriminate.
+  - now rewrite (meta_eqb_sound _ _ H).
+  - apply Bool.andb_true_iff in H. destruct H as [Hm Hl]. rewrite (meta_eqb_sound _ _ Hm). f_equal.
+    revert items' Hl. induction items as [|x r IHr]; intros [|y t] Hl; cbn [list_eqb] in Hl; try discriminate; [reflexivity|].
+    apply Bool.andb_true_iff in Hl. destruct Hl as [Hx Hr]. inversion_clear IH as [|? ? Px Pr].
+    f_equal; [now apply Px|now apply IHr].
+  - apply Bool.andb_true_iff in H. destruct H as [Hm Hl]. rewrite (meta_eqb_sound _ _ Hm). f_equal.
+    revert es' Hl. induction es as [|[k v] r IHr]; intros [|[k' v'] t] Hl; cbn [list_eqb] in Hl; try discriminate; [reflexivity|].
+    apply Bool.andb_true_iff in Hl. destruct Hl as [Hx Hr]. apply Bool.andb_true_iff in Hx. destruct Hx as [Hk Hv].
+    inversion_clear IH as [|? ? [Pk Pv] Pr]. cbn [fst snd] in *.
+    f_equal; [f_equal; [now apply Pk|now apply Pv]|now apply IHr].
+  - apply Bool.andb_true_iff in H. destruct H as [Hk Hm]. apply N.eqb_eq in Hk. now rewrite Hk, (meta_eqb_sound _ _ Hm).
+Qed.
+
+Definition book := list (string * ynode).
+
+Definition book_dec (b : book) (s : string) : option ynode :=
+  option_map snd (find (fun e : string * ynode => String.eqb (fst e) s) b).
+
+Definition book_enc (b : book) (n : ynode) : option string :=
+  option_map fst
+    (find (fun e : string * ynode =>
+             ynode_eqb (content (snd e)) (content n)
+             && match book_dec b (fst e) with Some t => ynode_eqb t (snd e) | None => false end) b).
+
+Theorem book_codec_round_trip (b : book) n s :
+  book_enc b n = Some s -> exists n', book_dec b s = Some n' /\ content n' = content n.
+Proof.
+  unfold book_enc. intros H.
+  destruct (find _ b) as [[s0 t0]|] eqn:F; [|discriminate]. cbn in H. injection H as <-.
+  apply find_some in F. destruct F as [_ F]. cbn [fst snd] in F.
+  apply Bool.andb_true_iff in F. destruct F as [Hc Hd].
+  destruct (book_dec b s0) as [t|] eqn:D; [|discriminate].
+  exists t. split; [reflexivity|]. apply ynode_eqb_sound in Hd. subst t. now apply ynode_eqb_sound.
+Qed.
